@@ -239,8 +239,9 @@ class FPX(Domain):
     name = "FPX"
     BW = 64
 
-    def __init__(self):
+    def __init__(self, bw=64):
         super().__init__()
+        self.BW = bw            # width of Python ints (callers assert ranges that exclude wrap-around)
         self.rm = z3.RNE()
         self.F = z3.Float64()
 
